@@ -2,7 +2,7 @@
 evaluator (factory.YaqlEngine, yaql.eval, expressions.Statement)."""
 from vlib.pyvc.verify import Contract
 from vlib.pyvc.sym import TInt, TBool, TStr, TVal, TSeq, TOpt
-from contracts._util import obj, mapcell
+from contracts._util import obj, mapcell, tuple_of
 from vlib.pyvc.sym import Opaque
 
 NV = Opaque('NO_VALUE')
@@ -13,6 +13,7 @@ F = 'yaql.language.factory.'
 def setup(world):
     world.opaque_globals[('yaql.language.utils', 'NO_VALUE')] = NV
     world.callee_contract('yaql.language.utils.convert_input_data')
+    world.callee_contract('yaql.language.utils.convert_output_data')
     world.opaque_sig('register_function', log=True)
     world.opaque_sig('collect_functions', log=True)
     world.opaque_sig('clone', log=True)
@@ -23,6 +24,8 @@ def setup(world):
     world.opaque_sig('get', log=False)
     world.opaque_ctor('Statement')
     world.opaque_ctor('YaqlFactory')
+    world.callee_contract('yaql.language.expressions.Function.__call__',
+                          raises={'WrappedException': True})
 
 
 def contracts():
@@ -118,8 +121,107 @@ def contracts():
                 'calls[0][1][0] == data)',
                 'implies(not CONV, len([e for e in calls if e[0] == '
                 '"contract:utils.convert_input_data"]) == 0)'],
+            # evaluation errors of the expression propagate to the host
+            raises={'Exception': 'True'},
             serves=('C09', 'C10'), native=False, note=str(conv)))
+    # Statement.__call__: whether an identity '#finalize' is installed is
+    # decided per call from the context of THAT call (never remembered on
+    # the statement), and only in a fresh child; the body is then dispatched
+    # as the '#finalize' function of that context
+    stmt = obj('yaql.language.expressions.Statement', engine=TVal,
+               expression=TVal, name='#finalize', args=tuple_of(TVal, 1),
+               uses_receiver=False)
+    FC = 'contract:Function.__call__'
+    cs.append(Contract(
+        'yaql.language.expressions.Statement.__call__',
+        name='expressions.Statement.__call__',
+        params=dict(self=stmt, receiver=TVal, context=TVal, engine=TVal),
+        ensures=[
+            'calls[0][0] == "m.collect_functions" and calls[0][1][0] == '
+            'context and calls[0][1][1] == "#finalize"',
+            # a finalizer is present: evaluate in the given context
+            'implies(truthy(calls[0][2]), len(calls) == 2 and '
+            'calls[1][0] == "%s" and calls[1][1][0] == val(self) and '
+            'calls[1][1][2] == context)' % FC,
+            # none: identity finalizer in a fresh child, evaluate there
+            'implies(not truthy(calls[0][2]), len(calls) == 4 and '
+            'calls[1][0] == "m.create_child_context" and calls[1][1][0] == '
+            'context and calls[2][0] == "m.register_function$name" and '
+            'calls[2][1][0] == calls[1][2] and calls[2][1][2] == '
+            '"#finalize" and calls[3][0] == "%s" and calls[3][1][2] == '
+            'calls[1][2])' % FC,
+            'calls[-1][1][1] == receiver and calls[-1][1][3] == engine and '
+            'result == calls[-1][2]'],
+        raises={'Exception': 'True'},
+        serves=('C09', 'C10'), native=False))
     return cs
+
+
+def setup_yi_inline(world):
+    """YaqlInterface.__call__ with no extra arguments: convert_input_data is
+    inlined (its real body on the empty tuple / dict)."""
+    world.opaque_globals[('yaql.language.utils', 'NO_VALUE')] = NV
+    world.callee_contract('yaql.language.utils.convert_output_data')
+    for nm in ('create_child_context', 'evaluate'):
+        world.opaque_sig(nm, log=True)
+
+
+def yi_contracts():
+    """-> [(contract, world_setup)]"""
+    cs = []
+    # YaqlInterface: whatever a call through the interface returns - the
+    # yi(expr) form and the yi.name(...) / yi.on(x).name(...) stub - goes
+    # through convert_output_data exactly once, unconditionally, with the
+    # context's '#iter' limiter, and THAT is what the host receives
+    yi = obj('yaql.yaql_interface.YaqlInterface', __context=TVal,
+             __engine=TVal, __sender=TVal)
+    CO = 'contract:utils.convert_output_data'
+    cs.append(Contract(
+        'yaql.yaql_interface.YaqlInterface.__getattr__.<locals>.stub',
+        name='YaqlInterface.stub',
+        params=dict(args=TVal, kwargs=TVal),
+        env=dict(self=yi, item=_ts('item')),
+        ensures=[
+            'len([e for e in calls if e[0] == "%s"]) == 1' % CO,
+            'calls[-1][0] == "%s" and result == calls[-1][2]' % CO,
+            # what is converted is the result of calling function `item`
+            # resolved in the interface's context with its engine / sender
+            'calls[-1][1][0] == calls[-2][2] and calls[-2][0] == '
+            '"call$**" and calls[-2][1][0] == calls[-3][2]',
+            'calls[-3][0] == "call" and calls[-3][1][0] == self.__context '
+            'and calls[-3][1][1] == item and calls[-3][1][2] == '
+            'self.__engine and calls[-3][1][3] == self.__sender',
+            'calls[-1][1][2] == self.__engine',
+            'sum([ite(e[2] == calls[-1][1][1] and e[1][0] == self.__context '
+            'and e[1][1] == "#iter", 1, 0) for e in calls '
+            'if e[0] == "call" and len(e[1]) == 3]) == 1'],
+        serves=('C10',), native=False))
+    cs.append(Contract(
+        'yaql.yaql_interface.YaqlInterface.__call__',
+        name='YaqlInterface.__call__',
+        params={'self': yi, '__expression': TStr, 'args': (), 'kwargs': {}},
+        ensures=[
+            'len([e for e in calls if e[0] == "%s"]) == 1' % CO,
+            'calls[-1][0] == "%s" and result == calls[-1][2]' % CO,
+            'len([e for e in calls if e[0] == "m.evaluate$context"]) == 1',
+            'all([calls[-1][1][0] == e[2] and e[1][1] == calls[0][2] '
+            'for e in calls if e[0] == "m.evaluate$context"])',
+            'calls[0][0] == "m.create_child_context" and calls[0][1][0] == '
+            'self.__context',
+            'calls[-1][1][2] == self.__engine'],
+        serves=('C10',), native=False))
+    return [(cs[0], setup), (cs[1], setup_yi_inline)]
+
+
+class _ts:
+    is_factory = True
+
+    def __init__(self, base):
+        self.base = base
+
+    def __call__(self, name, path):
+        from vlib.pyvc.verify import make_param
+        return make_param(self.base, TStr, path)
 
 
 class _eng:
